@@ -12,6 +12,7 @@
 #include <atomic>
 #include <thread>
 #include <cfenv>
+#include <cerrno>
 #include <sstream>
 #include <iostream>
 #include "tfhe.h"
@@ -410,6 +411,7 @@ static void op_decompsweep(const V &a, V &r) {  // l B lo hi
     delete_IntPolynomial_array(l, res); delete_TorusPolynomial(in); delete_TGswParams(gp); delete_TLweParams(tp);
 }
 
+static int g_amb_errno = 0, g_amb_flags = 0;
 int main(int argc, char **argv) {
     std::string line;
     while (std::getline(std::cin, line)) {
@@ -417,7 +419,12 @@ int main(int argc, char **argv) {
         std::string op; if (!(is >> op)) { putchar('\n'); fflush(stdout); continue; }
         V a; ll x; while (is >> x) a.push_back(x);
         V r;
-        if (op == "fenv") {   // rounding direction of the floating-point environment for everything that follows: 0 nearest, 1 upward, 2 downward, 3 toward zero
+        if (g_amb_flags) feraiseexcept(FE_ALL_EXCEPT);
+        if (g_amb_errno) errno = g_amb_errno;
+        if (op == "ambient") {   // sticky per-thread state left behind by unrelated code, re-established before every following call: errno value (0 = leave alone), 1 = all floating-point exception flags raised
+            g_amb_errno = a.size() > 0 ? (int) a[0] : 0; g_amb_flags = a.size() > 1 ? (int) a[1] : 0;
+            if (!g_amb_flags) feclearexcept(FE_ALL_EXCEPT); if (!g_amb_errno) errno = 0; r.push_back(1); }
+        else if (op == "fenv") {   // rounding direction of the floating-point environment for everything that follows: 0 nearest, 1 upward, 2 downward, 3 toward zero
             static const int modes[4] = { FE_TONEAREST, FE_UPWARD, FE_DOWNWARD, FE_TOWARDZERO }; fesetround(modes[a.empty() ? 0 : (a[0] & 3)]); r.push_back(fegetround() == modes[a.empty() ? 0 : (a[0] & 3)]); }
         else if (op == "msf") r.push_back(modSwitchFromTorus32((int32_t) a[0], (int32_t) a[1]));
         else if (op == "aph") r.push_back(approxPhase((int32_t) a[0], (int32_t) a[1]));
